@@ -219,6 +219,21 @@ func genDispatch(tier string, seed uint64, idx int) interface{} {
 			x.sc.Srv = append(x.sc.Srv, SOp{K: "barrier"})
 		}
 	}
+	if len(subscribed) > 0 && r.Bool(1, 5) {
+		// at the very end: a burst of QoS 0/1 messages, then the server shuts
+		// down its sending direction at once (it keeps reading): everything it
+		// sent has been delivered to the client
+		x.sc.Srv = append(x.sc.Srv, SOp{K: "barrier"})
+		for i := 2 + r.Intn(10); i > 0; i-- {
+			seq++
+			op := SOp{K: "pub", Topic: concretize(r, subscribed[r.Intn(len(subscribed))]), QoS: byte(r.Intn(2)), Size: 8 + r.Intn(200), Seq: seq}
+			if op.QoS > 0 {
+				op.ID = uint16(1000 + seq)
+			}
+			x.sc.Srv = append(x.sc.Srv, op)
+		}
+		x.sc.Srv = append(x.sc.Srv, SOp{K: "shutwr"})
+	}
 	return x.sc
 }
 
@@ -335,11 +350,57 @@ func genReceiver(tier string, seed uint64, idx int) interface{} {
 			}
 		}
 	}
+	released := true
 	for _, id := range order {
 		if !r.Bool(3, 4) {
+			released = false
 			break
 		}
 		x.sc.Srv = append(x.sc.Srv, SOp{K: "pubrel", ID: id})
+	}
+	if released && r.Bool(1, 4) {
+		// pipelined QoS 2: a few complete exchanges, then more PUBLISH packets
+		// in flight than the 16 slots of the client's queue; a prefix is
+		// released, the rest only in half of the runs
+		for i := 1 + r.Intn(6); i > 0; i-- {
+			seq++
+			x.sc.Srv = append(x.sc.Srv, SOp{K: "pub", Topic: topicsPool[r.Intn(len(topicsPool))], QoS: 2, ID: fresh(), Size: 8 + r.Intn(60), Seq: seq})
+		}
+		x.sc.Srv = append(x.sc.Srv, SOp{K: "barrier"})
+		x.sc.Apps[0] = append(x.sc.Apps[0], AOp{K: "barrier"})
+		var ids []uint16
+		for i := 17 + r.Intn(10); i > 0; i-- {
+			seq++
+			id := fresh()
+			ids = append(ids, id)
+			x.sc.Srv = append(x.sc.Srv, SOp{K: "pub", Topic: topicsPool[r.Intn(len(topicsPool))], QoS: 2, ID: id, Size: 8 + r.Intn(60), Seq: seq, NoRel: true})
+		}
+		x.sc.Srv = append(x.sc.Srv, SOp{K: "barrier"})
+		x.sc.Apps[0] = append(x.sc.Apps[0], AOp{K: "barrier"})
+		cut := r.Intn(len(ids) + 1)
+		for _, id := range ids[:cut] {
+			x.sc.Srv = append(x.sc.Srv, SOp{K: "pubrel", ID: id})
+		}
+		if r.Bool(1, 2) {
+			x.sc.Srv = append(x.sc.Srv, SOp{K: "barrier"})
+			x.sc.Apps[0] = append(x.sc.Apps[0], AOp{K: "barrier"})
+			for _, id := range ids[cut:] {
+				x.sc.Srv = append(x.sc.Srv, SOp{K: "pubrel", ID: id})
+			}
+		}
+	}
+	if released && r.Bool(1, 4) {
+		// a burst of QoS 0/1 messages, then the server shuts down its sending
+		// direction while it goes on reading: the client has received them
+		for i := 3 + r.Intn(12); i > 0; i-- {
+			seq++
+			op := SOp{K: "pub", Topic: topicsPool[r.Intn(len(topicsPool))], QoS: byte(r.Intn(2)), Size: 8 + r.Intn(300), Seq: seq}
+			if op.QoS > 0 {
+				op.ID = fresh()
+			}
+			x.sc.Srv = append(x.sc.Srv, op)
+		}
+		x.sc.Srv = append(x.sc.Srv, SOp{K: "shutwr"})
 	}
 	x.sc.Srv = append(x.sc.Srv, SOp{K: "barrier"})
 	return x.sc
@@ -440,7 +501,7 @@ func Defs() map[string]*world.Def {
 			Rule: rule, Real: real, Stub: stub, Level: "exploration", QuickRuns: quick, ThoroughRuns: thorough, Assumptions: assume}
 	}
 	return map[string]*world.Def{
-		"C20": mk("C20", genDispatch, "script = the real Client connects through the simulated transport to a scripted server answering CONNACK code 0-5 / SessionPresent 0/1 / malformed CONNACK / silence (connect timeout in virtual time) / close before or inside the CONNACK; then 1-2 application tasks issue Subscribe requests (distinct callback per request; quick tier: one literal filter per request, a quarter of the runs and the thorough tier: 1-4 wildcard and overlapping filters, filters shared between requests, filters the server denies with 0x80) and Unsubscribe (one subscribed filter, or several with a never-subscribed filter at any position), while the server delivers PUBLISH QoS 0-2 with DUP repeats (a sixth of the first copies already carry DUP), explicit PUBREL, matching and non-matching topics around those points. Oracle: Connect result table (nil iff code 0, error equals the refusal code, no goroutine and no open connection after a failed Connect); per completed Subscribe the callback count per message between certain and possible hand-overs, never for non-matching topics. Non-trivial = at least one request or a non-accepting CONNACK mode.", 12000, 10000000),
+		"C20": mk("C20", genDispatch, "script = the real Client connects through the simulated transport to a scripted server answering CONNACK code 0-5 / SessionPresent 0/1 / malformed CONNACK / silence (connect timeout in virtual time) / close before or inside the CONNACK; then 1-2 application tasks issue Subscribe requests (distinct callback per request; quick tier: one literal filter per request, a quarter of the runs and the thorough tier: 1-4 wildcard and overlapping filters, filters shared between requests, filters the server denies with 0x80) and Unsubscribe (one subscribed filter, or several with a never-subscribed filter at any position), while the server delivers PUBLISH QoS 0-2 with DUP repeats (a sixth of the first copies already carry DUP), explicit PUBREL, matching and non-matching topics around those points; a fifth of the scripts end with a burst of QoS 0/1 messages after which the server at once shuts down its sending direction (half-close). Oracle: Connect result table (nil iff code 0, error equals the refusal code, no goroutine and no open connection after a failed Connect); per completed Subscribe the callback count per message between certain and possible hand-overs, never for non-matching topics. Non-trivial = at least one request or a non-accepting CONNACK mode.", 12000, 10000000),
 		"C12": mk("C12", genCompletions, "client role: 1-3 application tasks call Publish (QoS 0-2), Subscribe, Unsubscribe, Ping on one Client; the scripted server acknowledges immediately or in any order at scheduler-chosen moments (also before the sending call has returned), withholding some acknowledgements until the end; in a third of the runs every n-th final acknowledgement is followed by a byte-identical repeat of an earlier one; a quarter of the runs are bursts (1-6 requests of one QoS complete, then 17-41 more pile up behind a withheld acknowledgement, so that the acknowledgement queue grows while wrapped and its slots are reused); packet-id counter starting near 65535 in a third of the runs. Oracle: exactly one completion per request, not before the last byte of its terminal acknowledgement, QoS 0 inside the call, completion due at the end when the acknowledgement and all earlier ones of the kind arrived, PUBREL per PUBREC, distinct non-zero identifiers in flight, strict parse of every byte the client writes.", 12000, 500000),
 		"C02": mk("C02", genReceiver, "client role: the Client subscribes to # and the scripted server plays the sender script of the broker role (PUBLISH QoS 1 with DUP repeats, QoS 2 with DUP repeats before the PUBREL, PUBREL in order, repeated and unknown PUBREL, more than two ring sizes of unrelated traffic). Oracle: the client's acknowledgement stream equals what the server's packets call for, in order; OnPublishFunc once per QoS 1 PUBLISH and once per QoS 2 exchange, not before the PUBREL, payload byte-identical.", 12000, 500000),
 	}
